@@ -266,6 +266,12 @@ type pre4abs struct {
 
 var otherN int
 
+// the pool / allocation length of the prefix plugin under test (battery: one request hints deep into the pool)
+var (
+	deepPool *net.IPNet
+	deepPage int
+)
+
 func fourWayIP(c string, own net.IP) net.IP {
 	switch c {
 	case "zero":
@@ -355,6 +361,7 @@ type req6abs struct {
 	sid   string
 	depth int
 	nocid bool
+	deep  bool   // an IA_PD whose hint lies deep inside the configured prefix pool (deepPool)
 	known bool   // the client is the one listed in the generated lease files (00:11:22:33:44:55)
 	ias   string // "" (an IA_NA or none, at random) | "ta" (IA_TA only) | "ta+pd" | "na+ta"
 }
@@ -396,6 +403,18 @@ func buildPlug6(a req6abs, ownDUID []byte, r *rand.Rand) (dhcpv6.DHCPv6, dhcpv6.
 		m.AddOption(dhcpv6.OptClientID(&dhcpv6.DUIDLL{HWType: 1, LinkLayerAddr: net.HardwareAddr{0x00, 0x11, 0x22, 0x33, 0x44, 0x55}}))
 	} else if !a.nocid {
 		m.AddOption(dhcpv6.OptClientID(duidFor(r.Intn(5), r)))
+	}
+	if a.deep && deepPool != nil {
+		ip := append(net.IP{}, deepPool.IP.To16()...)
+		ones, _ := deepPool.Mask.Size()
+		for i := (ones + 7) / 8; i < 16 && i < (ones+7)/8+3; i++ {
+			ip[i] = 0xff // far from the pool's base, still inside the pool
+		}
+		if deepPage > 0 && deepPage <= 128 {
+			ip = ip.Mask(net.CIDRMask(deepPage, 128))
+		}
+		m.AddOption(&dhcpv6.OptIAPD{IaId: [4]byte{0, 0, 0, 6}, Options: dhcpv6.PDOptions{Options: dhcpv6.Options{
+			&dhcpv6.OptIAPrefix{PreferredLifetime: 100 * time.Second, ValidLifetime: 200 * time.Second, Prefix: &net.IPNet{IP: ip, Mask: net.CIDRMask(deepPage, 128)}}}}})
 	}
 	switch a.ias {
 	case "ta":
@@ -802,6 +821,14 @@ func runPluginOne(t *Trace, pl string, proto int, args []string, reqs string, se
 			{typ: 1, sid: "none", known: true, ias: "ta"}, {typ: 3, sid: "same", known: true, ias: "ta+pd", depth: 1}, {typ: 1, sid: "none", known: true, ias: "na+ta"},
 			{typ: 5, sid: "same", known: true}, {typ: 1, sid: "none", ias: "ta"},
 		}
+		if pl == "prefix" && len(args) == 2 {
+			if _, n, err := net.ParseCIDR(args[0]); err == nil && n.IP.To4() == nil {
+				if pg, err := strconv.Atoi(args[1]); err == nil && pg > 0 && pg <= 128 {
+					deepPool, deepPage = n, pg
+					bat = append(bat, req6abs{typ: 1, sid: "none", deep: true}, req6abs{typ: 1, sid: "none"})
+				}
+			}
+		}
 		for _, a := range bat {
 			observe6(t, pl, args, h6, a, ownDUID, r, cfg)
 		}
@@ -1167,6 +1194,7 @@ func runPlugins(args []string) error {
 				vecs = append(vecs, []string{pool, sz})
 			}
 		}
+		vecs = append(vecs, []string{"2001:db8::/64", "120"}, []string{"2001:db8::/64", "072"}, []string{"2001:db8:0:100::/56", "64"})
 		// valid range configurations (four arguments): small pools of sizes around the bitmap's word size are run into
 		// exhaustion by the battery (every request comes from another hardware address)
 		for _, rg := range [][2]string{{"10.0.0.200", "10.0.0.202"}, {"10.0.0.1", "10.0.0.2"}, {"192.168.0.250", "192.168.1.5"}, {"255.255.255.250", "255.255.255.255"}} {
